@@ -20,6 +20,7 @@ type qNode struct {
 var c07Vars = []string{"a", "b", "c", "i"}
 var c07LetNames = []string{"a", "c", "ij"}
 var c07BindLetNames = []string{"a", "c", "ij", "i"}
+var c07CallLetNames = []string{"q", "a", "k"}
 var c07Callees = []string{".u", ".r", ".nope"}
 var c07ParamNames = []string{"", "k", "zz", "q"}
 
@@ -46,6 +47,25 @@ func (g *c07Gen) node(depth int) *qNode {
 		kinds = 2
 	}
 	k := 0
+	if g.profile == 2 {
+		// calls profile: a let or loop variable named like a param of the callee, around calls
+		// that forward data="all" or nothing
+		switch verifChoose(4) {
+		case 0:
+			return &qNode{kind: 0, name: c07CallLetNames[verifChoose(len(c07CallLetNames))]}
+		case 1:
+			return &qNode{kind: 1, name: c07CallLetNames[verifChoose(len(c07CallLetNames))]}
+		case 2:
+			if depth > 0 {
+				return &qNode{kind: 4, body: g.list(depth-1, 2)}
+			}
+		}
+		n := &qNode{kind: 5, callee: verifChoose(2), data: verifChoose(2)}
+		if n.callee == 1 && g.rOrder < 0 {
+			g.rOrder = 0
+		}
+		return n
+	}
 	if g.profile == 1 && depth > 0 {
 		k = verifChoose(5) // print, let value, let content, if, foreach
 	} else {
@@ -286,8 +306,16 @@ func H_datarefsLate(depth, budget, late int) { c07Run(depth, budget, true, true,
 // let / reference.
 func H_datarefsBind(depth, budget int, declA, declB bool) { c07Run(depth, budget, declA, declB, -1) }
 
+// H_datarefsCalls: the generator restricted to prints, lets named like params of the callees
+// (q, a, k), loops and calls with data="all" or without data: what data="all" forwards is the
+// caller's params, never its local variables.
+func H_datarefsCalls(depth, budget int, declA, declB bool) { c07Run(depth, budget, declA, declB, -2) }
+
 func c07Run(depth, budget int, declA, declB bool, late int) {
 	g := &c07Gen{budget: budget, rOrder: -1}
+	if late == -2 {
+		g.profile, late = 2, 0
+	}
 	if late < 0 {
 		g.profile, late = 1, 0
 	}
